@@ -207,6 +207,7 @@ def gen_layout(rng, nmov=None):
             rs.append([cx, cy + h / 2 + h / 8, w / 2, h / 4])            # north branch
         return rs
 
+    same_frac = rng.uniform(0.1, 0.6) if rng.random() < 0.1 else None     # equal areas: equal spans, ties in min()
     for i in range(nmov):
         if rng.random() < 0.3:
             rs = hard_rects()
@@ -215,6 +216,8 @@ def gen_layout(rng, nmov=None):
             mods.append({"name": f"M{i}", "kind": "hard", "rects": rs})
         else:
             frac = rng.uniform(0.03, 0.9)
+            if same_frac:
+                frac = same_frac
             if big and i == 0:
                 frac = 1 - rng.choice([1e-10, 3e-10, 1e-12, 1e-8, 0.0])
             a = math.pi * (frac * rmax) ** 2
@@ -253,6 +256,8 @@ def gen_layout(rng, nmov=None):
     for _ in range(rng.randrange(0, 4)):
         ar = min(n, rng.choice([2, 3, 3, 4, 5]))
         nets.append({"mods": [mods[i]["name"] for i in rng.sample(range(n), ar)], "w": float(rng.choice([1, 2, 0.5, 2.5]))})
+    if 8 <= n <= 20 and rng.random() < 0.5:
+        nets.append({"mods": [m["name"] for m in mods], "w": 1.0})          # one net through every module
     rng.shuffle(nets)
     return {"kind": "layout", "W": W, "H": H, "mods": mods, "nets": nets, "nf": nf, "seed": rng.randrange(0, 10000)}
 
@@ -704,7 +709,15 @@ def run_chain(case):
                     break
                 desc = edited(case, prev, ph["edit"], last, eps)
             Rectangle.undefine_epsilon()
-            s = build_spectral(desc)
+            try:
+                s = build_spectral(desc)
+            except AssertionError as e:
+                if pi == 0:
+                    raise
+                # the follow-up netlist written by the harness is not a legal input (e.g. a rectangle centre with a
+                # negative coordinate): the chain ends here
+                obs["rebuild_rejected"] = str(e)[:200]
+                break
             eps = Rectangle.distance_epsilon()
             pobs = {"before": snap(s), "adj": [[[e.node, e.weight] for e in es] for es in s._adj], "eps": eps, "steps": []}
             obs["phases"].append(pobs)
@@ -1383,11 +1396,11 @@ def run(ctx, out, replay=None):
     global SAMPLE_ALL
     quick = ctx.quick()
     SAMPLE_ALL = not quick
-    nk = 1800 if quick else 30000
-    nd = 12 if quick else 100
-    nl = 24 if quick else 250
-    nc = 12 if quick else 90
-    ncli = 5 if quick else 40
+    nk = 1800 if quick else 24000
+    nd = 12 if quick else 80
+    nl = 24 if quick else 180
+    nc = 12 if quick else 60
+    ncli = 5 if quick else 30
     out.rule = ("kernels on dyadic vectors (normalize: entries k/8, zeros, entries at, one ulp around and near the 10e-10 "
                 "threshold, spans k/4 incl. 0, fixed flags; orthogonalize: 2-4 rows incl. the all-ones row, masses zero on "
                 "fixed nodes or not, parallel rows, all nodes fixed, normalised dot product exactly at / one unit below / above "
@@ -1443,7 +1456,7 @@ def run(ctx, out, replay=None):
     t0 = time.time()
     pre = {}
     try:
-        with multiprocessing.get_context("fork").Pool(6) as pool:
+        with multiprocessing.get_context("fork").Pool(6 if quick else 8) as pool:
             for i, obs in enumerate(pool.map(_obs_of, heavy, chunksize=1)):
                 pre[id(heavy[i])] = obs
     except Exception:
